@@ -14,5 +14,8 @@ fi
 cd /verif
 for c in $CHECKS; do
   out=$(VERIF_REPO="$WT" ./check "$c" 2>&1); rc=$?
-  echo "SEED $ID check $c rc=$rc: $(echo "$out" | grep -E '^(VIOLATION|OK|KNOWN)' | head -3 | tr '\n' ' ')"
+  echo "SEED $ID check $c rc=$rc: $(echo "$out" | grep -E '^(VIOLATION|OK)' | head -4 | cut -c1-220 | tr '\n' ' ') known=$(echo "$out" | grep -c '^KNOWN-FINDING')"
+  for r in $(echo "$out" | grep -E '^VIOLATION' | sed -n 's/.*replay=\([^ ]*\).*/\1/p' | head -2); do
+    [ -e "$r" ] && echo "  replay $r: $(python3 -c "import json,sys; d=json.load(open('$r')); print((str(d.get('key',''))+' | '+str(d.get('what') or d.get('broken',''))) [:400])" 2>/dev/null)"
+  done
 done
